@@ -136,7 +136,7 @@ pub fn spec(args: &[String]) -> i32 {
                 let one_past = { // "the len is N but the index is N": an index running exactly one past the end of what it indexes
                     let nums: Vec<&str> = msg.split(|c: char| !c.is_ascii_digit()).filter(|t| !t.is_empty()).collect();
                     msg.contains("index out of bounds: the len is") && nums.len() == 2 && nums[0] == nums[1] };
-                let mc = if msg.contains("PosOverflow") { "number-too-large" } else if one_past && (rule_for_label.contains('…') || rule_for_label.contains("..") || rule_for_label.contains('⋯')) { "index-one-past-end" }
+                let mc = if msg.contains("PosOverflow") { "number-too-large" } else if one_past && loc.contains("subrule.rs") && { let i0 = rule_for_label.split(|c| c == '>' || c == '→').next().unwrap_or(""); i0.contains('…') || i0.contains("..") || i0.contains('⋯') } { "index-one-past-end" }
                     else if msg.contains("index out of bounds") || msg.contains("out of range") { "index-out-of-bounds" } else if msg.contains("None") { "unwrap-none" } else if msg.contains("capacity overflow") || msg.contains("subtract with overflow") { "arithmetic" } else if msg.contains("not implemented") || msg.contains("unreachable") { "unimplemented-or-unreachable" } else if msg.contains("Out of bounds access") { "segment-out-of-bounds" } else { "other" };
                 // the shape of the failing rule is part of the identity of a finding: the same function can fail for unrelated reasons
                 let inp = rule_for_label.split(|c| c == '>' || c == '→').next().unwrap_or("");
